@@ -41,6 +41,7 @@ package fdo
 //@   params s ctx msg
 //@   local complete = extract2:call:fdo.TO2SessionState.Devmod#1
 //@   local deviceInfo = addr:Alloc#1
+//@   local devmod = UnOp#3 | addr:Alloc#3 | extract0:TypeAssert#1 | extract0:TypeAssert#2 | extract0:call:fdo.TO2SessionState.Devmod#1
 //@   local err = call:cbor.Decoder.Decode#1 | call:fdo.TO2SessionState.SetDevmod#1 | call:fdo.TO2SessionState.SetDevmod#2 | call:io.Closer.Close#1 | call:serviceinfo.ChunkWriter.Close#1 | call:serviceinfo.ChunkWriter.WriteChunk#1 | call:serviceinfo.ModulePersister.PersistModule#1 | call:serviceinfo.OwnerModule.HandleInfo#1 | extract1:call:fdo.TO2SessionState.GUID#1 | extract1:call:fdo.VoucherPersistentState.Voucher#1 | extract1:call:io.Copy#1 | extract2:call:serviceinfo.ModuleStateMachine.Module#1 | extract3:call:fdo.TO2SessionState.Devmod#1
 //@   local messageBody = extract1:call:serviceinfo.UnchunkReader.NextServiceInfo#1
 //@   local messageName = extract1:call:strings.Cut#1
